@@ -157,6 +157,51 @@ def build(tier, seed):
             obs.append(Ob(f"C02.{name}.hermitian", "proof", FN(name), herm,
                           f"{name} is flagged is_hermitian: M = M^H for all real parameters"))
 
+    # ---- special parameter points and re-parametrisation: flags and dagger stay consistent with the matrix
+    for name, entry in table.items():
+        _, k, pn = entry
+        if k == 0:
+            continue
+
+        def special(name=name, k=k, pn=pn):
+            proto = table[name][0]
+            q = 0
+            for pt in (0, 0.0, 1, -1, -2, trig.Poly.const(0)):
+                g = proto(*([pt] * k))
+                m = g.matrix
+                d = 2 ** g.num_qubits
+                checks = [("M^H M = I", m.adjoint() @ m, I(d)), ("dagger.matrix = M^H", g.dagger.matrix, m.adjoint())]
+                if g.is_hermitian:
+                    checks.append(("M = M^H (flagged is_hermitian)", m, m.adjoint()))
+                vs = tuple(trig.Poly.var(f"s{i}") for i in range(k))
+                g2 = g.replace_params(vs)
+                m2 = g2.matrix
+                checks += [("re-parametrised: same matrix as the gate built directly", m2, proto(*vs).matrix), ("re-parametrised: dagger.matrix = M^H", g2.dagger.matrix, m2.adjoint())]
+                if g2.is_hermitian:
+                    checks.append(("re-parametrised gate flagged is_hermitian: M = M^H", m2, m2.adjoint()))
+                for what, a, b in checks:
+                    v, info = mcheck.decide_equal(a, b, use_z3=False)
+                    q += 1
+                    if v != "equal":
+                        code = f"""
+import numpy as np
+from orquestra.quantum.circuits import _builtin_gates as B
+m = lambda g: np.array(g.matrix.tolist(), dtype=complex)
+g = B.{name}(*([{pt if not isinstance(pt, trig.Poly) else 0!r}] * {k}))
+g2 = g.replace_params(tuple(0.3 + 0.4 * i for i in range({k})))
+ok = np.allclose(m(g.dagger), m(g).conj().T) and np.allclose(m(g2.dagger), m(g2).conj().T) and np.allclose(m(g2), m(B.{name}(*tuple(0.3 + 0.4 * i for i in range({k})))))
+for h in (g, g2):
+    ok = ok and ((not h.is_hermitian) or np.allclose(m(h), m(h).conj().T))
+OK = bool(ok)
+OBSERVED = f"is_hermitian flags {{g.is_hermitian}}, {{g2.is_hermitian}}; |dagger - adjoint| {{abs(m(g.dagger) - m(g).conj().T).max()}}, {{abs(m(g2.dagger) - m(g2).conj().T).max()}}"
+"""
+                        return core.refuted("ring-normal-form", f"{name} built at parameter value {pt!r}: {what} fails", cex={"gate": name, "built_at": repr(pt)},
+                                            replay=__import__("vfw.replay", fromlist=["x"]).replay_dict(code, what), queries=q)
+            return core.discharged("ring-normal-form", queries=q)
+        obs.append(Ob(f"C02.{name}.special_points", "proof", FN(name) + ["orquestra.quantum.circuits._builtin_gates:make_parametric_gate_prototype", "orquestra.quantum.circuits._gates:MatrixFactoryGate.replace_params"],
+                      special, f"{name} built at the special parameter values 0, 0.0, 1, -1, -2: unitary, dagger = adjoint, hermitian flag consistent, and after replace_params "
+                               f"to generic parameters the gate equals the directly built one (matrix, dagger, flag) for all real parameters"))
+
     for name in GROUP_FAMILIES:
         if name not in table:
             def missing(name=name):
